@@ -518,8 +518,41 @@ func (w *World) parseGoType(src string) (types.Type, error) {
 	case src == "struct{}":
 		return types.NewStruct(nil, nil), nil
 	case strings.HasPrefix(src, "func("):
-		// all func values share the sort Ref; the precise signature is not needed in specs
-		return types.NewSignatureType(nil, nil, nil, nil, nil, false), nil
+		depth, end := 0, -1
+		for i := 4; i < len(src); i++ {
+			if src[i] == '(' {
+				depth++
+			}
+			if src[i] == ')' {
+				depth--
+				if depth == 0 {
+					end = i
+					break
+				}
+			}
+		}
+		if end < 0 {
+			return nil, fmt.Errorf("bad func type %q", src)
+		}
+		var ps []*types.Var
+		if inner := strings.TrimSpace(src[5:end]); inner != "" {
+			for _, p := range splitTop(inner) {
+				pt, err := w.parseGoType(p)
+				if err != nil {
+					return nil, err
+				}
+				ps = append(ps, types.NewVar(0, nil, "", pt))
+			}
+		}
+		var rs []*types.Var
+		if rest := strings.TrimSpace(src[end+1:]); rest != "" {
+			rt, err := w.parseGoType(rest)
+			if err != nil {
+				return nil, err
+			}
+			rs = append(rs, types.NewVar(0, nil, "", rt))
+		}
+		return types.NewSignatureType(nil, nil, nil, types.NewTuple(ps...), types.NewTuple(rs...), false), nil
 	}
 	if i := strings.Index(src, "."); i >= 0 {
 		p, ok := w.allPkgs[src[:i]]
